@@ -7,5 +7,7 @@ for d in sorted(glob.glob('/verif/seeded/*')):
     m = json.load(open(d + '/meta.json'))
     ran = m.get('ran', '')
     first = 'missed, check strengthened' if 'MISSED' in ran or 'missed' in ran.lower() else 'caught'
+    if 'SUPERSEDED' in ran:
+        first += '; superseded by a later fix (patch no longer applies)'
     caught = m.get('caught_by') or m.get('detected_by') or ran
     print("| %s | %s | %s | %s | %s |" % (os.path.basename(d), m.get('property', ''), (m.get('breaks') or m.get('what') or '').replace('|', '/')[:160], caught.replace('|', '/')[:170], first))
